@@ -1250,6 +1250,7 @@ func (g *Gen) autoInv(li *loopInfo, vals map[*ssa.Phi]string) string {
 
 // namedValues binds source-level variable names to SSA values, walking up the dominator tree from b.
 func (g *Gen) namedValues(b *ssa.BasicBlock, env *Env) {
+	seen := map[string]bool{}
 	for ; b != nil; b = b.Idom() {
 		local := map[string]EnvVal{}
 		for _, in := range b.Instrs {
@@ -1265,9 +1266,11 @@ func (g *Gen) namedValues(b *ssa.BasicBlock, env *Env) {
 			}
 		}
 		for n, ev := range local {
-			if _, ok := env.vars[n]; !ok {
+			if prev, ok := env.vars[n]; !ok || (prev.param && !seen[n]) {
+				// a parameter that the body reassigns is, at this point, its current value (closest dominator)
 				env.vars[n] = ev
 			}
+			seen[n] = true
 		}
 	}
 }
